@@ -393,7 +393,7 @@ pub fn repeat_strategy() -> impl Strategy<Value = Rep> {
     prop_oneof![
         6 => Just(Rep::None),
         6 => prop::sample::select(vec![0u32, 1, 2, 3, 7]).prop_map(Rep::Times),
-        1 => prop::sample::select(vec![(1u32 << 24) - 1, 1 << 24, (1 << 24) + 1, u32::MAX - 1]).prop_map(Rep::Times),
+        1 => prop::sample::select(vec![(1u32 << 24) - 1, 1 << 24, (1 << 24) + 1, u32::MAX - 1, u32::MAX]).prop_map(Rep::Times),
         3 => Just(Rep::Infinite),
     ]
 }
